@@ -302,6 +302,10 @@ class Interp:
         self.notes = []
         self.discr_types = {}
         self.diverged = []      # states of paths that ended in a panic / diverging call
+        self.blocks = 0
+        self.block_cap = 1500000
+        import time as _t
+        self.deadline = _t.time() + 90.0
 
     # ---- places --------------------------------------------------------------------------------
     def resolve(self, st, frame, place):
@@ -517,6 +521,9 @@ class Interp:
                 self.notes.append('loop cap in ' + body['generic_path'])
                 return
             bb = body['blocks'][bbi]
+            self.blocks += 1
+            if self.blocks > self.block_cap or (self.blocks % 4096 == 0 and __import__('time').time() > self.deadline):
+                raise Stop('exploration budget exceeded (%d blocks) in %s' % (self.blocks, body['generic_path']))
             for s in bb['stmts']:
                 if s['k'] == 'assign':
                     dty = body['locals'][s['place']['l']]['ty'] if not s['place']['p'] else None
@@ -574,6 +581,8 @@ class Interp:
                 return
             if k == 'call':
                 argv = [self.operand(st, frame, a) for a in t['args']]
+                t = dict(t)
+                t['_argtys'] = [(body['locals'][a['place']['l']]['ty'] if (a.get('k') in ('copy', 'move') and not a['place']['p']) else None) for a in t['args']]
                 dest = t['dest']
                 tgt = t['t']
                 dty = body['locals'][dest['l']]['ty'] if not dest['p'] else None
